@@ -12,3 +12,4 @@ open XotModel.Props
 #print axioms C08_wraps_names
 #print axioms C08_wraps_prefixes
 #print axioms C08_wraps_namespaces
+#print axioms C08_bulk_is_history
